@@ -726,6 +726,20 @@ func CheckC09(c *C09Case, st *Stats) error {
 	} else {
 		r, a = buildFromHistory(c.Recv), buildFromHistory(c.Arg)
 	}
+	if rl, ok := r.(at.List); ok && rl.Count() > 0 {
+		switch rl.TypeOf(0) {
+		case at.TypeNil, at.TypeBool, at.TypeList, at.TypeObject:
+			// Sort refuses such a list (its first element is not sortable): the caller recovers and goes on
+			// using the list, which the failed call must have left entirely alone
+			before := slots(r)
+			if _, panicked := catch(func() { rl.Sort() }); panicked {
+				st.Count("failed_sort_first")
+				if !slotsEqual(before, slots(r)) {
+					return errf("a Sort that panicked changed the list: %s -> %s", showSlots(before), showSlots(slots(r)))
+				}
+			}
+		}
+	}
 	parts = append(parts, &participant{"receiver", r}, &participant{"argument", a})
 	// lookups before anything is derived (whatever they build inside a list belongs to that list alone)
 	if err := lookupsConsistent(r, []any{"x", 1}); err != nil {
